@@ -731,7 +731,10 @@ def flip_alternatives(tag, negative):
             ('g2', [('"zz"', 'g')]), ('b', [('TRUE', 'b')]), ('b2', [('false', 'b')]),
             # the reserved words are recognised in any letter case: the mixed-case spellings are values too
             ('b3', [('True', 'b')]), ('b4', [('fALSE', 'b')]),
-            ('-n', [('-', 'm'), ('7', 'n')]), ('-f', [('-', 'm'), ('2.5', 'f')])]
+            ('-n', [('-', 'm'), ('7', 'n')]), ('-f', [('-', 'm'), ('2.5', 'f')]),
+            # (round 12, C12-21) strings whose content looks like a value of another lexical class, or like nothing
+            ('s2', [("'a.b'", 's')]), ('s3', [("'1.5'", 's')]), ('s4', [("'7'", 's')]), ('s5', [("''", 's')]),
+            ('s6', [("'TRUE'", 's')]), ('s7', [("'1e5'", 's')]), ('s8', [("'-'", 's')]), ('s9', [("'.'", 's')])]
     own = ('-' if negative else '') + tag
     return [(name, toks) for name, toks in alts if name != own]
 
